@@ -297,6 +297,8 @@ def run_concurrent(case):
                                    f"caller {rec['caller']} reg {rec['reg']}: {n} transmissions with retries={r} while "
                                    f"requests for {others} were in progress on the same object"))
             break
+        if rec.get("cancelled"):
+            continue   # cancelled by its caller: it may give up early, it must only stay within the budget
         if rec["outcome"] in ("failed", "maxretries") and n < r + 1:
             violations.append(viol(f"C05:concurrent:under-budget:{tr}",
                                    f"caller {rec['caller']} reg {rec['reg']}: gave up after {n} transmission(s) with "
